@@ -1,6 +1,27 @@
 HOOK_COMMITS = ["91ffc11"]
 NOT_APPLICABLE = {}
 ENTRIES = {
+    "C07": {
+        "text": "Theorems for every server state: a resolved signal completes the serving future with Ok before anything further is "
+                "accepted, the future stays completed, later connects are refused (no service made, no handler run), every live "
+                "connection is told to shut down, idle and still-sniffing connections close, a connection with an exchange in "
+                "flight (even a partial head) is kept until the response has been delivered and then closes. Model tied to the "
+                "real Server (HTTP/1 and auto, duplex acceptor, raw clients, gated handlers) by differential runs with the signal "
+                "at every stage.",
+        "note": "Partial: hyper's side of graceful shutdown is an assumption encoded as per-connection rules and validated by the "
+                "correspondence; HTTP/2 connections only up to the preface; ops are atomic (tasks run to quiescence after each).",
+        "design_ref": "DESIGN.md §5 C07",
+    },
+    "C09": {
+        "text": "Invariant theorem for every operation sequence: the serving future ends only after the shutdown signal, loss of the "
+                "listener, or a make-service failure; a fault on one connection (cancelled connect, disconnect, garbage, partial "
+                "request) changes no other connection's state. Model tied to the real Server on duplex acceptors (raw and "
+                "Acceptor-wrapped) with fault injection and a final probe client. Defect (cancelled duplex connect killed the "
+                "server) found and fixed.",
+        "note": "Partial: OS-level accept errors (EMFILE, ECONNABORTED) and TLS handshake faults are not exhibited by this stream "
+                "(TLS faults: see C12); hyper's per-connection behaviour is assumed.",
+        "design_ref": "DESIGN.md §5 C09",
+    },
     "C02": {
         "text": 'Step-level theorems for every pool state: a non-shareable connection is delivered to at most one waiter and never both delivered and kept idle; the hand-back task returns it only when open and not busy; pop never returns a busy/closed connection; use marks it busy. Monitors (double-use, busy-handout) run on every implementation trace; model and implementation are compared after every op.',
         "note": 'Trusted: Lean kernel; hand-written pool model tied to the real ConnectionPoolService by per-op differential runs (result, marker set, waiter queues, idle lists, dial and drop counters); tokio oneshot/scheduler semantics assumed; step-level theorems hold for every state, the global ownership invariant is stated in DESIGN.md as future work where not yet proved.',
